@@ -23,10 +23,9 @@ P = {
   technique="decision-table extraction (path atoms) + writer/reader table agreement + class-capability check against the Arpeggio source"),
 "C02": dict(
   decided={
-    "C02.a": "the multiplicity accumulator flows into each choice alternative and back out (def-use on the accumulator set)",
-    "C02.b": "repetition raises multiplicity; the order table in const.py; ?= inside repetition raises",
     "C02.c": "the list branch of process_node appends every non-separator child in iteration order",
     "C02.d": "plain-assignment decision table: second value for a single-valued attribute raises MULT_ASSIGN_ERROR before the conversion",
+    "C02.e": "by evaluation of visit_textx_rule on 34 sample rule bodies (parsing-expression trees; isinstance follows Arpeggio's class hierarchy): an attribute becomes a list iff assigned with += / *=, under a repetition, or more than once on one path (alternatives of a choice do not add up, members of an unordered group do); ?= under a repetition is a TextXSemanticError; rule modifiers and references to other rules change nothing",
     "C01.e": "(shared with C01) many-valued attributes start as [] for every configuration; base-type defaults follow the documented table",
     "C08.a": "(shared with C08) list references are stored positionally, not in resolution order",
     "C08.b": "(shared with C08) the position table is per list, persistent and updated in parallel with the list",
@@ -38,6 +37,7 @@ P = {
   decided={
     "C03.k": "the visited set of the rule-kind fixpoint lives for one pass: it is re-created inside the change-driven loop before the classes are visited",
     "C03.l": "by evaluation of _init_class with sample classes (own vs inherited attributes): with inherits=None the class gets a new empty inheritor list of its own, also when it is a Python subclass of an initialised user class or was initialised before",
+    "C03.m": "by evaluation of _determine_rule_types on 10 sample meta-models (rule bodies as parsing-expression trees), classes visited in grammar order and in reverse: rules with assignments are common; a rule without assignments referencing a non-match rule is abstract with exactly the non-match rules its alternatives yield as inheritors (match-rule references and syntactic predicates in front contribute nothing); all others are match rules",
     "C03.j": "the static walkers of rule kind / inheritance inference skip syntactic predicates (And/Not leave no result at run time): every use of a node's .root in them lies where the node is known not to be a predicate",
     "C03.a": "every comparison with a RULE_*/MULT_* constant has a rule-kind / multiplicity operand (kind discipline)",
     "C03.b": "inside the change-driven fixpoint of _determine_rule_types every derived fact is recomputed each pass",
@@ -54,6 +54,7 @@ P = {
 "C04": dict(
   decided={
     "C04.f": "no base-type pattern has exactly one capturing group unless it spans the whole match (use_regexp_group would convert only that group)",
+    "C04.g": "by evaluation of TextXMetaModel.process on a meta-model object built by interpreting __init__: sample literals of BOOL, INT, FLOAT, STRICTFLOAT and STRING are converted to the documented Python value and type, independent of what was converted before (the same text as FLOAT, then as INT); a type without processor leaves the value unchanged",
     "C04.e": "the table of built-in conversions is written only in __init__: no other method mutates it (directly or through an alias) or binds another attribute to the table itself instead of a copy",
     "C04.d": "numeric regexes accept their writer: L(str(int)) within L(INT), L(repr(finite float)) within L(FLOAT) and L(STRICTFLOAT) (core languages, by automaton product); STRICTFLOAT accepts no digit-only word; both float patterns end in the same context assertions",
     "C04.a": "STRING: for each delimiter the regex's only escape alternative is backslash+delimiter and the converter strips one char per side and unescapes exactly that",
@@ -157,6 +158,7 @@ P = {
     "C18.i": "ModelRepository.remove_model, evaluated on a three-entry repository (two files and a string model under a synthetic key): removing a stored model removes exactly its entry wherever it sits; a model that is not stored changes nothing",
     "C13.e": "the test that gates the descent of the processor walk looks the object's class up by its qualified name (_tx_fqn), the key under which every namespace of the meta-model is searched, not by the simple class name",
     "C13.f": "by evaluation of textxerror_wrap: the wrapper returns what the wrapped processor returns (the replacement value reaches the model)",
+    "C13.g": "by evaluation on a meta-model object built by interpreting TextXMetaModel.__init__: after each register_obj_processors the processor that runs for a type is the one of the latest registration alone, the built-in conversion applies where it is not overridden, has_obj_processor agrees",
     "C13.a": "by evaluation of call_obj_processors over a sample model: contained objects are processed before their container, an object's own-rule processor before the declared-rule processor, each registered processor exactly once per object; in parse_tree_to_objgraph processors run after the resolution loop, the unresolved check and _end_model_construction of all models",
     "C13.b": "by evaluation: a non-None processor result replaces the object in its list slot / single attribute, the own-rule result wins over the declared-rule result, a None result leaves the object in place",
     "C13.c": "by evaluation: the target of a non-containment reference is not descended into, match-rule values are not handed to the walker's processors",
@@ -288,6 +290,7 @@ P = {
     "C23.b": "library raisers (codecs.decode, re.compile, int, float, open) are converted or guarded; by evaluation a grammar literal with a broken escape and an invalid grammar regex end in a TextXSyntaxError, never in a bare Python exception",
     "C23.c": "error handlers do not crash (no subscript of a terminal node)",
     "C23.d": "kind errors in rule parameters: evaluated over {skipws, ws, split, other} x {True, False, strings}, visit_rule_params never fails with a Python-level error (a bool used as a string); it raises a TextX error or returns the table",
+    "C23.e": "by evaluation: compiling the sample rule bodies of C02.e raises nothing but TextX errors",
     "C23.e": "recursion along rule cross-references carries a cycle check",
     "C23.f": "the handler around the compilation of a user regex is `except Exception` or wider",
     "C23.g": "a dict.get() result is not used as a container/object without a None test",
